@@ -366,22 +366,32 @@ func (r *Runner) stmtSync(ctx context.Context, st *syntax.Stmt) {
 		}
 	}
 	if r.exit.ok() && st.Cmd != nil {
+		// errexit and the ERR trap are ignored for everything that runs inside a negated statement.
+		oldNoErrExit := r.noErrExit
+		if st.Negated {
+			r.noErrExit = true
+		}
 		r.cmd(ctx, st.Cmd)
+		r.noErrExit = oldNoErrExit
 	}
-	if st.Negated {
+	if r.exit.exiting || r.exit.returning {
+		// An exit or return passing through: its status is neither inverted
+		// nor a failure of this statement.
+	} else if st.Negated {
 		if r.exit.ok() {
 			r.exit.code = 1
 		} else {
 			r.exit.clear()
 		}
 	} else if b, ok := st.Cmd.(*syntax.BinaryCmd); ok && (b.Op == syntax.AndStmt || b.Op == syntax.OrStmt) {
-	} else if !r.exit.ok() && !r.noErrExit {
+	} else if !r.exit.ok() && !r.noErrExit && errChecked(st.Cmd) {
 		r.trapCallback(ctx, r.callbackErr, "error")
 		// If the "errexit" option is set and a command failed, exit the shell. Exceptions:
 		//
 		//   conditions (if <cond>, while <cond>, etc)
 		//   part of && or || lists; excluded via "else" above
 		//   preceded by !; excluded via "else" above
+		//   compound commands other than subshells; see errChecked
 		if r.opts[optErrExit] {
 			r.exit.exiting = true
 		}
@@ -396,6 +406,18 @@ func (r *Runner) stmtSync(ctx context.Context, st *syntax.Stmt) {
 			cls.Close()
 		}
 	}
+}
+
+// errChecked reports whether a failure of the command itself triggers the ERR trap and errexit.
+// Like in Bash, groups, conditionals, loops, case clauses and function declarations do not:
+// the commands inside them are checked one by one.
+func errChecked(cm syntax.Command) bool {
+	switch cm.(type) {
+	case *syntax.Block, *syntax.IfClause, *syntax.WhileClause, *syntax.ForClause,
+		*syntax.CaseClause, *syntax.FuncDecl:
+		return false
+	}
+	return true
 }
 
 func (r *Runner) cmd(ctx context.Context, cm syntax.Command) {
